@@ -115,6 +115,26 @@ func checkC10(h *History, vs []*opView) {
 			if u == nil {
 				continue
 			}
+			// "sends exactly that question to that rule's upstream (unless its
+			// cache already holds the answer)": an upstream-generated answer to
+			// a question that this upstream never received, in any exchange of
+			// the run, came out of a cache that cannot hold it
+			sent := false
+			for _, q := range u.Queries {
+				if q.Decoded && q.Token == v.o.Op.Token && len(v.q.Q) == 1 && q.Type == v.q.Q[0].Type && q.Class == v.q.Q[0].Class {
+					sent = true
+				}
+			}
+			if !sent && len(v.q.Q) == 1 {
+				for i, m := range v.resps {
+					if m == nil || v.isHTTP && v.o.Resps[i].Status != 200 {
+						continue
+					}
+					if meta, ok := peers.DecodeMeta(m); ok {
+						h.S.Fail("C10", "answered-without-forwarding", "op %d (token %s, type %d class %d): upstream %s never received this question, yet the client got an upstream-generated answer (made for type %d class %d, serial %d)", v.o.Op.Idx, v.o.Op.Token, v.q.Q[0].Type, v.q.Q[0].Class, u.Spec.Tag, meta.Type, meta.Class, meta.Serial)
+					}
+				}
+			}
 			for _, q := range u.Queries {
 				if q.Decoded && q.Token == v.o.Op.Token && q.Name.Equal(v.lower) {
 					match := false
